@@ -7,6 +7,7 @@ CONSTANTS
   MaxDisc = 1
   MaxSubs = 0
   Sequential = TRUE
+  Abandons = FALSE
   Timeouts = FALSE
   Limits <- C10Limits
   Affs <- C10Affs
